@@ -8,11 +8,15 @@ FIXTURES = ['F3']
 
 
 def run(ctx, R):
-    R.explanation = ('Decided: C18.H - in both entry points "no CR and len >= 107" yields HeaderTooLong, which is terminal (classification table), for '
-                     'every input; C18.W - once a CR at i is followed by a byte the result is fields(input[..i+2]) whatever follows, so no later byte '
-                     'can change it. NOT decided: that this final result carries the complete flag - whether a Missing*/Partial outcome can be reached '
-                     'with a closed window depends on token contents (defect D6 of DESIGN.md: e.g. "PROXY TCP4 1.1.1.1\\r\\n" is reported incomplete for ever).')
-    R.assumptions.append('completeness flag of the final verdict on closed windows is not decided (DESIGN.md C18, D6)')
+    R.explanation = ('C18.H - in both entry points "no CR and len >= 107" yields HeaderTooLong, which is terminal (classification table), for every input; '
+                     'C18.W - once a CR at i is followed by a byte the result is fields(input[..i+2]) whatever follows, so no later byte can change it; '
+                     'C18.N/M - complete is the negation of incomplete, Missing* only for absent tokens; C18.X - every guarded outcome of the fully inlined '
+                     'entry points that is an incomplete verdict must be unsatisfiable together with "the first CR is followed by a byte", decided with the '
+                     'token-layout theory of str::splitn (engine/layout.py: token lengths and separator positions add up to the window, the first CR sits at a '
+                     'separator position). On the current tree 11 outcome classes per entry point ARE satisfiable with a closed window - genuine defects '
+                     '(family D6 of DESIGN.md), each confirmed on the real library and listed in known_findings.json by exact key; MissingPrefix, '
+                     'MissingProtocol and MissingSourceAddress are proved impossible on a closed window.')
+    R.assumptions.append('token-layout axiom of str::splitn (DESIGN.md 4.3) as encoded in engine/layout.py')
     n = 0
     for which in ('str', 'bytes'):
         n += v1model.check_window(ctx, R, 'C18.H', which, only=['no-cr-at-limit'])
@@ -23,3 +27,61 @@ def run(ctx, R):
     # 'complete' is the negation of 'incomplete' for every result (default is_complete, never overridden)
     classify.flag_algebra(ctx, R, 'C18.N')
     v1model.missing_rule(ctx, R, 'C18.M')
+    closed_window(ctx, R)
+
+
+def closed_window(ctx, R, rule='C18.X'):
+    """Once the first CR is followed by a byte (the window is closed) no outcome may be an incomplete verdict.  Decided per guarded outcome of
+    the fully inlined entry points with the token-layout theory (engine/layout.py): an incomplete outcome whose path condition is satisfiable
+    together with 'CR present and a byte follows it' is a violation."""
+    CRt = I(tables.V1_CR)
+    n_checked = 0
+    for which, trait in (('str', 'std::convert::TryFrom<&str>'), ('bytes', 'std::convert::TryFrom<&[u8]>')):
+        p = ctx.method(tables.V1_HEADER, 'try_from', trait)
+        ev, outs = ctx.entry(p)
+        if not outs:
+            R.require(False, rule, 'closed-window/' + which, 'no summary')
+            continue
+        inp = P(ctx, p, 0)
+        closed = [('call', 'has_byte', (inp, CRt)), T.cmp('Le', T.add(('call', 'first_byte', (inp, CRt)), I(2)), T.mk_len(inp))]
+        seen = {}
+        for o in outs:
+            r = o['ret']
+            if not (r[0] == 'adt' and r[2] == 'Err'):
+                continue
+            e = T.adt_field(r, '0')
+            if e[0] == 'adt' and e[1] == tables.V1_BERR and e[2] == 'Parse':
+                e = T.adt_field(e, '0')
+            if e[0] != 'adt' or e[2] not in tables.V1_INCOMPLETE:
+                continue
+            n_checked += 1
+            kw = 'TCP4' if any("b'TCP4' ==" in T.short(a) and a[0] == 'eq' for a in o['pc']) else 'TCP6' if any("b'TCP6' ==" in T.short(a) and a[0] == 'eq' for a in o['pc']) else \
+                 'UNKNOWN' if any("b'UNKNOWN' ==" in T.short(a) and a[0] == 'eq' for a in o['pc']) else '-'
+            if kw == '-':
+                kw = 'after-PROXY' if any(a[0] == 'eq' and "b'PROXY' ==" in T.short(a) for a in o['pc']) else 'first-token'
+            # token-presence signature of the path: which tokens were seen, which were found absent / empty (keeps different ways of
+            # reaching the same verdict apart, without line numbers)
+            has_, no_, empty_ = set(), set(), set()
+            for a in o['pc']:
+                neg = a[0] == 'not'
+                b = a[1] if neg else a
+                if b[0] == 'call' and b[1] == 'has_tok':
+                    k = b[2][1]
+                    (no_ if neg else has_).add(str(k[1]) if k[0] == 'int' else 'mu')
+                if b[0] == 'eq0' and not neg:
+                    c0, m = T.to_lin(b[1])
+                    if c0 == 0 and len(m) == 1:
+                        (x, _), = m.items()
+                        if x[0] == 'len' and x[1][0] == 'call' and x[1][1] == 'tok':
+                            k = x[1][2][1]
+                            empty_.add(str(k[1]) if k[0] == 'int' else 'mu')
+            sig = 'seen[%s]absent[%s]empty[%s]' % (','.join(sorted(has_)), ','.join(sorted(no_)), ','.join(sorted(empty_)))
+            key = '%s/%s/%s/%s' % (which, e[2], kw, sig)
+            if solver.sat(list(o['pc']) + closed):
+                seen.setdefault(key, o)
+        for key, o in sorted(seen.items()):
+            R.inst(rule, 'incomplete-verdict-on-closed-window/' + key, False, expected='a complete verdict once the first CR is followed by a byte',
+                   found='%s is reachable with the window closed, under: %s' % (T.short(o['ret']), pc_text([a for a in o['pc']][-8:], 8)), entry='v1::Header::try_from(%s)' % ('&str' if which == 'str' else '&[u8]'),
+                   kind='incomplete-after-line-break')
+        R.inst(rule, 'closed-window/%s/examined' % which, True, expected='every incomplete outcome examined', found='%d incomplete outcomes, %d classes reachable when closed' % (n_checked, len(seen)), entry=p, nontrivial=True)
+    R.floor('incomplete outcomes examined against the closed-window condition', n_checked, 60)
